@@ -349,6 +349,10 @@ class Gen:
                 if le < 0:
                     le = len(text)
                 text = text[:le] + '\n' + h + text[le:]
+            elif where == 'pre':
+                text = text[:k] + h + ' ' + text[k:]
+            elif where == 'post':
+                text = text[:k + len(anchor)] + ' ' + h + text[k + len(anchor):]
             elif where == 'replace':
                 text = text[:k] + h + text[k + len(anchor):]
                 log.add('RX-hint', p, anchor, h)
@@ -509,6 +513,7 @@ class Gen:
         parts.append('use vstd::std_specs::cmp::*;')
         parts.append('use std::ops::{self, Deref, DerefMut, Index, IndexMut, Neg, Add, Sub, Mul, Div, AddAssign, SubAssign, MulAssign, DivAssign};')
         parts.append('use std::convert::{From, Into, TryInto, TryFrom};')
+        parts.append('use std::mem::swap;')
         for pre in unit.preludes:
             parts.append('use crate::%s::*;' % pre.split('_')[0] if pre != 'alea' else 'use crate::alea;')
         parts.append('/*USE-LITS*/')
